@@ -3,3 +3,4 @@ import RtVerif.Base.Verdict
 import RtVerif.Gen.Facts
 import RtVerif.Model.C07
 import RtVerif.Model.C05
+import RtVerif.Model.C18
